@@ -400,6 +400,10 @@ def set_case(draw, tier):
             cfg = draw(cfg_st(tier, small=True, types=(t,)))
             L, nv = _lens(cfg)
             objs.append({"cfg": cfg, "stacked_fill": draw(fill_st(L)), "new_var_fill": draw(fill_st(nv))})
+            # the SAME object listed once more (states=[z0, z0], povms=[pz, px, pz]): its own block of the total vector
+            if draw(st.integers(0, 3)) == 0:
+                objs.append({"cfg": cfg, "stacked_fill": objs[-1]["stacked_fill"], "new_var_fill": draw(fill_st(nv)),
+                             "dup": True})
     return {"objects": objs, "share_c_sys": draw(st.booleans())}
 
 
@@ -878,7 +882,10 @@ def _build_groups(specs, share, shared=None):
             c_sys = shared.setdefault(cfg["shape"], c_sys_cached(cfg["shape"]))
         else:
             c_sys = build.c_sys_for(cfg["shape"])
-        groups[cfg["type"]].append((cfg, x, make_obj(cfg, x, c_sys=c_sys), sp))
+        if sp.get("dup") and groups[cfg["type"]]:
+            groups[cfg["type"]].append((cfg, x, groups[cfg["type"]][-1][2], sp))  # the very same instance again
+        else:
+            groups[cfg["type"]].append((cfg, x, make_obj(cfg, x, c_sys=c_sys), sp))
     return groups
 
 
@@ -935,6 +942,8 @@ def _verify_set(ctx, sq, groups, tag=""):
               "dims:" + ("mixed" if len({sp['cfg']['shape'] for sp in specs}) >= 2 else "uniform"))
     for t in types_present:
         ctx.label("has:" + t)
+    if any(sp.get("dup") for sp in specs):
+        ctx.label("same-object-listed-twice")
     if not tag and not getattr(ctx, "_history", False):
         ctx.nontrivial(len(types_present) >= 2)
 
